@@ -9,6 +9,7 @@ import (
 	"fmt"
 	"io"
 	"net"
+	"runtime"
 	"sort"
 	"strconv"
 	"sync"
@@ -37,12 +38,17 @@ import (
 //	op [9, variant]      malformed frame (connection error for the framer)
 //	op [10, sid]         the application cancels the stream (ClientStream.Close(Canceled))
 //	op [12, ms]          virtual time passes
+//	op [13, sid, dlen, plen, end]   DATA with the PADDED flag: pad-length byte, dlen zero bytes, plen padding
+//	op [14, id, val]     SETTINGS with the single setting (id, val)
+//	op [15]              SETTINGS ack
 //	obs: events of the op, 4 integers each, in this order:
 //	    [0, sid|-1, 0, 0]           result of NewStream
 //	    [1, sid, code, unprocessed] stream sid terminated with this status code (by sid)
 //	    [99, sid, code, 0]          a terminated stream changed its status (never expected)
 //	    [3, sid, code, 0]           RST_STREAM written by the client (by sid)
 //	    [8, 0, 0, 0]                the client closed the connection
+//	    [77, n, 0, 0]               (final observation only) n goroutines more than at the start of
+//	                                the case are still alive after Close (never expected)
 //	one extra observation at the end: the events of http2Client.Close.
 var vClientFramesNames = map[int64]string{
 	1: ":status", 2: "content-type", 3: "grpc-status", 4: "grpc-message", 5: "k1", 6: "k2-bin",
@@ -92,6 +98,7 @@ type vClientFramesStream struct {
 }
 
 func vClientFramesRun(cfg []int64, ops [][]int64) (obs [][]int64, nt bool, tags []string) {
+	baseGoroutines := runtime.NumGoroutine()
 	cli, srv := net.Pipe()
 	sv := &vClientFramesSrv{pref: make(chan struct{})}
 	go sv.read(srv)
@@ -261,6 +268,8 @@ func vClientFramesRun(cfg []int64, ops [][]int64) (obs [][]int64, nt bool, tags 
 				rawFrame(1, 4, 1, 3, []byte{0xff, 0xff, 0xff}) // bad HPACK
 			case 7:
 				rawFrame(4, 0, 0, 5, make([]byte, 5)) // SETTINGS of 5 bytes
+			case 9:
+				rawFrame(0, 8, 1, 3, []byte{5, 0, 0}) // padded DATA whose pad length exceeds the payload
 			default:
 				rawFrame(0, 0, 0, 0, nil) // DATA on stream 0
 			}
@@ -274,6 +283,23 @@ func vClientFramesRun(cfg []int64, ops [][]int64) (obs [][]int64, nt bool, tags 
 			if len(op) > 1 && op[1] > 0 && op[1] <= 3600000 {
 				time.Sleep(time.Duration(op[1]) * time.Millisecond)
 			}
+		case 13:
+			if len(op) >= 5 && op[2] >= 0 && op[3] >= 0 && op[3] <= 255 && 1+op[2]+op[3] <= 16384 {
+				// written raw: the x/net writer leaves the PADDED flag out when the padding is empty
+				fl := byte(8)
+				if op[4] == 1 {
+					fl |= 1
+				}
+				n := int(1 + op[2] + op[3])
+				rawFrame(0, fl, uint32(op[1]), n, append([]byte{byte(op[3])}, zeros[:n-1]...))
+			}
+		case 14:
+			if len(op) >= 3 && op[1] >= 0 && op[1] <= 65535 && op[2] >= 0 && op[2] <= 4294967295 &&
+				(op[1] != 3 || op[2] >= 100) && (op[1] != 6 || op[2] >= 16384) {
+				sfr.WriteSettings(http2.Setting{ID: http2.SettingID(op[1]), Val: uint32(op[2])})
+			}
+		case 15:
+			sfr.WriteSettingsAck()
 		}
 		flush()
 		synctest.Wait()
@@ -282,7 +308,17 @@ func vClientFramesRun(cfg []int64, ops [][]int64) (obs [][]int64, nt bool, tags 
 	closed, finalClose = true, true
 	t.Close(errors.New("verif case done"))
 	synctest.Wait()
-	obs = append(obs, collect(nil))
+	last := collect(nil)
+	// goroutine monitor: with both ends closed and every context cancelled, at the next quiescent
+	// point every goroutine this case started (reader, loopy, keepalive, the scripted server) is gone
+	srv.Close()
+	cancelAll()
+	synctest.Wait()
+	if n := runtime.NumGoroutine() - baseGoroutines; n != 0 {
+		last = append(last, 77, int64(n), 0, 0)
+		tagset["goroutine-leak"] = true
+	}
+	obs = append(obs, last)
 	for _, st := range streams {
 		if !st.done {
 			panic(fmt.Sprintf("vClientFrames: stream %d has no terminal status after Close", st.s.id))
@@ -297,6 +333,17 @@ func vClientFramesRun(cfg []int64, ops [][]int64) (obs [][]int64, nt bool, tags 
 
 func vClientFramesExec(cfg []int64, ops [][]int64) (obs [][]int64, nt bool, tags []string) {
 	var pv any
+	defer func() {
+		// synctest.Test panics ("blocked goroutines remain") when a goroutine of the bubble outlives
+		// the case; the monitor has then already recorded event 77 in the final observation, and the
+		// leak is reported through clause 5 with a replayable case instead of a crash
+		if p := recover(); p != nil {
+			if n := len(obs); pv == nil && n > 0 && len(obs[n-1]) >= 4 && obs[n-1][len(obs[n-1])-4] == 77 {
+				return
+			}
+			panic(p)
+		}
+	}()
 	synctest.Test(vClientFramesT, func(t *testing.T) {
 		defer func() {
 			if p := recover(); p != nil {
@@ -456,6 +503,23 @@ func vClientFramesGen(r *vRand, tier string, idx int) ([]int64, [][]int64) {
 			[]int64{1, 0}, []int64{10, sid + 4}, []int64{4, sid + 4, 2}, okT(sid+4, "0"))
 	case idx >= 3 && idx < 12:
 		ops = append(ops, []int64{1, 0}, []int64{1, 0}, okH(1), []int64{9, int64(idx - 3)}, []int64{1, 0}, []int64{4, 3, 8})
+	case idx == 20:
+		// padded DATA: padding counts against the stream window and is given back at once; a
+		// non-gRPC body collects only the data bytes; padding alone can violate flow control
+		ops = append(ops, []int64{1, 0}, okH(1), []int64{13, 1, 100, 255, 0}, []int64{13, 1, 0, 0, 0}, []int64{13, 1, 16128, 255, 0},
+			[]int64{13, 1, 16128, 255, 0}, []int64{13, 1, 16128, 255, 0}, []int64{13, 1, 16000, 255, 0}, []int64{13, 1, 1000, 0, 0}, []int64{13, 1, 5, 5, 1})
+		ops = append(ops, []int64{1, 0}, okH(3), []int64{3, 3, 16384, 0}, []int64{3, 3, 16384, 0}, []int64{3, 3, 16384, 0}, []int64{13, 3, 16383, 0, 0}, []int64{13, 3, 0, 0, 0})
+		ops = append(ops, []int64{1, 0}, H(5, false, F(1, "404"), F(2, "text/html")), []int64{13, 5, 1000, 255, 0}, []int64{13, 5, 23, 255, 0}, []int64{13, 5, 1, 0, 0})
+		ops = append(ops, []int64{1, 0}, H(7, false, F(1, "503")), []int64{13, 7, 10, 200, 1})
+		ops = append(ops, []int64{1, 0}, []int64{9, 9}, []int64{1, 0})
+	case idx == 21:
+		// SETTINGS in mid-connection: every known id, an unknown one, an ack; then the window size
+		// that is a connection error
+		ops = append(ops, []int64{1, 0}, okH(1))
+		for _, sv := range [][2]int64{{1, 0}, {1, 4096}, {2, 0}, {2, 1}, {3, 100}, {3, 4294967295}, {4, 0}, {4, 65535}, {4, 2147483647}, {5, 16384}, {5, 0}, {6, 16384}, {8, 1}, {153, 7}} {
+			ops = append(ops, []int64{14, sv[0], sv[1]})
+		}
+		ops = append(ops, []int64{15}, []int64{1, 0}, okH(3), []int64{3, 1, 10, 0}, okT(1, "0"), []int64{1, 0}, []int64{14, 4, 2147483648}, []int64{1, 0})
 	case idx >= 12 && idx < 20:
 		// GOAWAY shapes
 		ops = append(ops, []int64{1, 0}, []int64{1, 0}, []int64{1, 0})
@@ -502,7 +566,16 @@ func vClientFramesGen(r *vRand, tier string, idx int) ([]int64, [][]int64) {
 			case x < 55:
 				ops = append(ops, vClientFramesGenHdr(r, pickSid(), pBad))
 			case x < 70:
-				ops = append(ops, []int64{3, pickSid(), r.PickI64(0, 1, 100, 1023, 1024, 5000, 16384, 16384), vB(r.Chance(25))})
+				if r.Chance(30) {
+					dl := r.PickI64(0, 0, 1, 100, 1023, 5000, 16128, 16383)
+					pl := r.PickI64(0, 0, 1, 7, 255, 255)
+					if 1+dl+pl > 16384 {
+						pl = 16384 - 1 - dl
+					}
+					ops = append(ops, []int64{13, pickSid(), dl, pl, vB(r.Chance(25))})
+				} else {
+					ops = append(ops, []int64{3, pickSid(), r.PickI64(0, 1, 100, 1023, 1024, 5000, 16384, 16384), vB(r.Chance(25))})
+				}
 			case x < 80:
 				ops = append(ops, []int64{4, pickSid(), r.PickI64(0, 1, 2, 3, 5, 7, 7, 8, 8, 8, 11, 12, 13, 99)})
 			case x < 84:
@@ -512,7 +585,25 @@ func vClientFramesGen(r *vRand, tier string, idx int) ([]int64, [][]int64) {
 			case x < 91:
 				ops = append(ops, []int64{8, pickSid(), r.PickI64(0, 0, 1, 1000)})
 			case x < 93:
-				ops = append(ops, []int64{6})
+				switch r.Intn(4) {
+				case 0:
+					ops = append(ops, []int64{6})
+				case 1:
+					ops = append(ops, []int64{15})
+				default:
+					id := r.PickI64(1, 2, 3, 4, 4, 5, 6, 8, 153)
+					val := r.PickI64(0, 1, 100, 4096, 16384, 65535, 2147483647, 4294967295)
+					if r.Chance(97) && id == 4 && val > 2147483647 {
+						val = 2147483647
+					}
+					if id == 3 && val < 100 {
+						val = 100
+					}
+					if id == 6 && val < 16384 {
+						val = 16384
+					}
+					ops = append(ops, []int64{14, id, val})
+				}
 			case x < 97:
 				id := r.PickI64(0, 1, next-2, next-4, next, 2147483647, 2147483647, 4)
 				if id < 0 {
@@ -520,7 +611,7 @@ func vClientFramesGen(r *vRand, tier string, idx int) ([]int64, [][]int64) {
 				}
 				ops = append(ops, []int64{7, id, r.PickI64(0, 0, 2, 11)})
 			case x < 98 && r.Chance(40):
-				ops = append(ops, []int64{9, int64(r.Intn(9))})
+				ops = append(ops, []int64{9, int64(r.Intn(10))})
 			default:
 				ops = append(ops, []int64{6})
 			}
